@@ -15,10 +15,11 @@ echo "== fast tests with the change"
 PYTHONPATH="$wt" timeout 900 /venv/bin/python -m pytest -q -p no:cacheprovider -x -k "not test_example" tests 2>&1 | tail -1 | tee "$out/tests_with_change.txt"
 echo "== demo with the change (expect exit 1)"
 PYTHONPATH="$wt" /venv/bin/python "$demo" > "$out/demo_with_change.txt" 2>&1; d1=$?; tail -3 "$out/demo_with_change.txt"; echo "exit=$d1"
-git stash -q
+# (not git stash: the stash is shared by all worktrees of a repository, and seeding agents work in parallel)
+git checkout -q -- stepup
 echo "== demo without the change (expect exit 0)"
 PYTHONPATH="$wt" /venv/bin/python "$demo" > "$out/demo_without_change.txt" 2>&1; d0=$?; tail -2 "$out/demo_without_change.txt"; echo "exit=$d0"
-git stash pop -q
+git apply "$out/patch.diff"
 echo "== check $prop against the change applied to /repo"
 git -C /repo apply "$out/patch.diff" || { echo "patch does not apply to /repo"; exit 2; }
 (cd "$verif" && ./check "$prop" --tier quick > "$out/check_output.txt" 2>&1; echo "check exit=$?" | tee -a "$out/check_output.txt")
